@@ -183,6 +183,77 @@ theorem C32_hermite_in_range (s : Seg K) (hx : s.x0 < s.x1) (hy : s.y0 ≤ s.y1)
     have p3 : 0 ≤ (3 * D - A) * (t * (1 - t) ^ 2) := mul_nonneg (by linarith) (mul_nonneg ht0 (sq_nonneg _))
     linarith
 
+/-! within one piece the value is monotone, not only in range -/
+
+def herm (a b t : K) : K := 3 * t ^ 2 - 2 * t ^ 3 + a * (t * (1 - t) ^ 2) - b * (t ^ 2 * (1 - t))
+
+theorem cube_mono (s t : K) (h : s ≤ t) : s ^ 3 ≤ t ^ 3 := by
+  have : t ^ 3 - s ^ 3 = (t - s) * ((t + s / 2) ^ 2 + 3 / 4 * s ^ 2) := by ring
+  nlinarith [sq_nonneg (t + s / 2), sq_nonneg s, mul_nonneg (sub_nonneg.mpr h)
+    (add_nonneg (sq_nonneg (t + s / 2)) (mul_nonneg (by norm_num : (0 : K) ≤ 3 / 4) (sq_nonneg s)))]
+
+theorem herm_mono (a b s t : K) (ha0 : 0 ≤ a) (ha3 : a ≤ 3) (hb0 : 0 ≤ b) (hb3 : b ≤ 3)
+    (hs : 0 ≤ s) (hst : s ≤ t) (ht : t ≤ 1) : herm a b s ≤ herm a b t := by
+  have c03 : s ^ 3 ≤ t ^ 3 := cube_mono s t hst
+  have c30 : (1 - t) ^ 3 ≤ (1 - s) ^ 3 := cube_mono _ _ (by linarith)
+  have c33 : (2 * s - 1) ^ 3 ≤ (2 * t - 1) ^ 3 := cube_mono _ _ (by linarith)
+  have c00 : 3 * s ^ 2 - 2 * s ^ 3 ≤ 3 * t ^ 2 - 2 * t ^ 3 := by
+    have e : (3 * t ^ 2 - 2 * t ^ 3) - (3 * s ^ 2 - 2 * s ^ 3)
+        = (t - s) * (3 * (t + s) - 2 * (t ^ 2 + t * s + s ^ 2)) := by ring
+    have h1 : t ^ 2 ≤ t := by nlinarith
+    have h2 : s ^ 2 ≤ s := by nlinarith
+    have h3 : t * s ≤ s := by nlinarith
+    have : 0 ≤ (t - s) * (3 * (t + s) - 2 * (t ^ 2 + t * s + s ^ 2)) := mul_nonneg (by linarith) (by nlinarith)
+    linarith
+  have e : herm a b t - herm a b s =
+      (1 - a / 3) * (1 - b / 3) * ((3 * t ^ 2 - 2 * t ^ 3) - (3 * s ^ 2 - 2 * s ^ 3))
+      + (a / 3) * (1 - b / 3) * ((1 - s) ^ 3 - (1 - t) ^ 3)
+      + (1 - a / 3) * (b / 3) * (t ^ 3 - s ^ 3)
+      + (a / 3) * (b / 3) * (((2 * t - 1) ^ 3 - (2 * s - 1) ^ 3) / 2) := by
+    simp only [herm]; ring
+  have ha : 0 ≤ a / 3 := by positivity
+  have hb : 0 ≤ b / 3 := by positivity
+  have ha' : 0 ≤ 1 - a / 3 := by linarith
+  have hb' : 0 ≤ 1 - b / 3 := by linarith
+  have p1 := mul_nonneg (mul_nonneg ha' hb') (sub_nonneg.mpr c00)
+  have p2 := mul_nonneg (mul_nonneg ha hb') (sub_nonneg.mpr c30)
+  have p3 := mul_nonneg (mul_nonneg ha' hb) (sub_nonneg.mpr c03)
+  have p4 : 0 ≤ (a / 3) * (b / 3) * (((2 * t - 1) ^ 3 - (2 * s - 1) ^ 3) / 2) :=
+    mul_nonneg (mul_nonneg ha hb) (by linarith)
+  linarith
+
+/-- Fritsch–Carlson, monotone form: under the same slope bounds a piece over non-decreasing data is non-decreasing on
+    its whole interval (so the interpolant of monotone data is monotone, piece by piece) -/
+theorem C32_hermite_monotone (s : Seg K) (hx : s.x0 < s.x1) (hy : s.y0 ≤ s.y1)
+    (hd0 : 0 ≤ s.d0) (hd1 : 0 ≤ s.d1)
+    (hb0 : (s.x1 - s.x0) * s.d0 ≤ 3 * (s.y1 - s.y0)) (hb1 : (s.x1 - s.x0) * s.d1 ≤ 3 * (s.y1 - s.y0))
+    (x x' : K) (h0 : s.x0 ≤ x) (hxx : x ≤ x') (h1 : x' ≤ s.x1) : hermite s x ≤ hermite s x' := by
+  have hh : 0 < s.x1 - s.x0 := sub_pos.mpr hx
+  rcases lt_or_eq_of_le (sub_nonneg.mpr hy) with hD | hD
+  · -- D > 0: normalise
+    set D := s.y1 - s.y0 with hDdef
+    have key : ∀ z, hermite s z = s.y0 + D * herm ((s.x1 - s.x0) * s.d0 / D) ((s.x1 - s.x0) * s.d1 / D)
+        ((z - s.x0) / (s.x1 - s.x0)) := by
+      intro z
+      rw [hermite_eq]
+      simp only [herm]
+      have hDne : D ≠ 0 := ne_of_gt hD
+      field_simp
+      ring
+    rw [key x, key x']
+    have hm := herm_mono ((s.x1 - s.x0) * s.d0 / D) ((s.x1 - s.x0) * s.d1 / D)
+      ((x - s.x0) / (s.x1 - s.x0)) ((x' - s.x0) / (s.x1 - s.x0))
+      (div_nonneg (mul_nonneg (le_of_lt hh) hd0) (le_of_lt hD)) ((div_le_iff₀ hD).mpr hb0)
+      (div_nonneg (mul_nonneg (le_of_lt hh) hd1) (le_of_lt hD)) ((div_le_iff₀ hD).mpr hb1)
+      (div_nonneg (sub_nonneg.mpr h0) (le_of_lt hh))
+      ((div_le_div_iff_of_pos_right hh).mpr (by linarith))
+      ((div_le_one hh).mpr (by linarith))
+    nlinarith [mul_le_mul_of_nonneg_left hm (le_of_lt hD)]
+  · -- flat data: both slopes vanish, the piece is constant
+    have hA : (s.x1 - s.x0) * s.d0 = 0 := le_antisymm (by linarith) (mul_nonneg (le_of_lt hh) hd0)
+    have hB : (s.x1 - s.x0) * s.d1 = 0 := le_antisymm (by linarith) (mul_nonneg (le_of_lt hh) hd1)
+    rw [hermite_eq, hermite_eq, hA, hB, ← hD]; simp
+
 theorem sgn_pos {a : K} (h : 0 < a) : sgn a = 1 := by simp [sgn, h]
 theorem sgn_zero : sgn (0 : K) = 0 := by simp [sgn]
 theorem sgn_neg {a : K} (h : a < 0) : sgn a = -1 := by simp [sgn, h, not_lt.mpr (le_of_lt h)]
